@@ -510,6 +510,20 @@ def shard(args):
                 at = r.randint(1, len(nested))
                 nested[at:at] = refreader.read('\n'.join(group))
             res.count('scripts_with_less_common_commands')
+        if r.random() < 0.2:
+            # comments inside commands and terms (the reader keeps them as
+            # children of the s-expression they stand in)
+            lists = []
+            stack = [c for c in nested if isinstance(c, list)]
+            while stack:
+                x = stack.pop()
+                if len(x) >= 2:
+                    lists.append(x)
+                stack.extend(y for y in x if isinstance(y, list))
+            for x in r.sample(lists, min(len(lists), r.randint(1, 3))):
+                x.insert(r.randint(1, len(x)),
+                         r.choice(['; c\n', ';\n', '; (a b) "c |d\n']))
+            res.count('scripts_with_comments_inside_terms')
         pre = tricky_prefix(r)
         k = next((j for j, c in enumerate(nested)
                   if c[0] not in ('set-logic', 'set-info', 'set-option')),
